@@ -244,8 +244,16 @@ def fresh_case(npred, W, A, targets):
             'blocks': [], 'structural': True, 'origin': ''}
 
 
-def add_leaf(case, role, rng=None, exact=True):
+def add_leaf(case, role, rng=None, exact=True, reuse=0.0):
+    """new leaf wire, or (with probability `reuse`) an existing leaf of the same role: the SAME wire
+    object then feeds several assignments (shared address / data / enable wires)"""
     W = case['W']
+    if rng is not None and reuse and rng.random() < reuse:
+        same = [i for i, lf in enumerate(case['leaves'])
+                if lf['role'] == role and lf['kind'] == 'in' and lf['width'] == (
+                    W if role == 'data' else case['A'] if role == 'addr' else 1)]
+        if same:
+            return rng.choice(same)
     if role == 'data':
         if exact or rng is None:
             lf = {'role': 'data', 'kind': 'in', 'width': W}
@@ -317,6 +325,40 @@ def subsets(xs):
 TARGET_PAIRS = [[('w', 0), ('r', 0)], [('w', 0), ('m', 0)], [('r', 0), ('m', 0)], [('w', 0), ('w', 1)]]
 
 
+def memchain_case(pattern, shape, dpattern=None, W=3, A=2):
+    """len(pattern) conditional writes to ONE MemBlock, mutually exclusive by construction; write i uses
+    address wire pattern[i] (a small pool of shared address Inputs), data wire dpattern[i] (default: all
+    distinct), its own enable.  shape: 'flat' (with p0 / with p1 / ...), 'flat-oth' (last branch is
+    otherwise), 'nested' (with p0: W0; otherwise: (with p1: W1; otherwise: ...)), 'split' (first two
+    writes under with p0: with p1 / otherwise, the rest a flat chain)"""
+    n = len(pattern)
+    case = fresh_case(n, W, A, [('m', 0)])
+    addrs = {}
+    datas = {}
+    writes = []
+    for i, a in enumerate(pattern):
+        if a not in addrs:
+            addrs[a] = add_leaf(case, 'addr')
+        dk = i if dpattern is None else dpattern[i]
+        if dk not in datas:
+            datas[dk] = add_leaf(case, 'data')
+        writes.append(('mem', 0, addrs[a], datas[dk], add_leaf(case, 'en')))
+    if shape == 'flat':
+        prog = [('with', i, [w]) for i, w in enumerate(writes)]
+    elif shape == 'flat-oth':
+        prog = [('with', i, [w]) for i, w in enumerate(writes[:-1])] + [('oth', [writes[-1]])]
+    elif shape == 'nested':
+        prog = [('with', n - 1, [writes[-1]])]
+        for i in range(n - 2, -1, -1):
+            prog = [('with', i, [writes[i]]), ('oth', prog)]
+    else:  # split
+        prog = [('with', 0, [('with', 1, [writes[0]]), ('oth', [writes[1]])])]
+        prog += [('with', i, [w]) for i, w in list(enumerate(writes))[2:]]
+    case['blocks'] = [{'defaults': None, 'prog': prog}]
+    case['origin'] = 'memchain%d' % n
+    return case
+
+
 def random_forest(rng, case, depth, maxdepth, cfg):
     """random body: branches and assignments at random positions"""
     items = []
@@ -333,9 +375,11 @@ def random_forest(rng, case, depth, maxdepth, cfg):
         for _ in range(nas):
             l = rng.choice(case['targets'])
             if l[0] == 'm':
-                a = ('mem', l[1], add_leaf(case, 'addr'), add_leaf(case, 'data'), add_leaf(case, 'en'))
+                a = ('mem', l[1], add_leaf(case, 'addr', rng, reuse=cfg['p_share']),
+                     add_leaf(case, 'data', rng, reuse=cfg['p_share'] / 2), add_leaf(case, 'en', rng, reuse=cfg['p_share']))
             else:
-                a = ('asg', l, add_leaf(case, 'data', rng, exact=(rng.random() >= cfg['p_mixed'])))
+                ex = rng.random() >= cfg['p_mixed']
+                a = ('asg', l, add_leaf(case, 'data', rng, exact=ex, reuse=(cfg['p_share'] / 2 if ex else 0.0)))
             items.insert(rng.randint(0, len(items)), a)
     return items
 
@@ -373,7 +417,7 @@ def random_case(rng, tier):
     targets = rng.sample(pool, nt)
     case = fresh_case(npred, W, A, targets)
     cfg = {'p_oth': rng.choice([0.15, 0.3, 0.45]), 'p_top_asg': 0.03,
-           'p_mixed': rng.choice([0.0, 0.0, 0.3])}
+           'p_mixed': rng.choice([0.0, 0.0, 0.3]), 'p_share': rng.choice([0.0, 0.5, 0.8])}
     maxdepth = rng.randint(2, 4 if tier == 'quick' else 5)
     prog = random_forest(rng, case, 0, maxdepth, cfg)
     if rng.random() < 0.6:
@@ -590,7 +634,10 @@ def make_stimulus(rng, case, rounds=2, cap=None):
         # distinct data values where the width allows, so that a wrong branch is visible
         perm = list(range(1 << W))
         rng.shuffle(perm)
+        aperm = list(range(1 << case['A']))
+        rng.shuffle(aperm)
         k = 0
+        ka = 0
         for lf in case['leaves']:
             if lf['kind'] == 'int':
                 raw.append(lf['val'])
@@ -599,6 +646,11 @@ def make_stimulus(rng, case, rounds=2, cap=None):
                 k += 1
             elif lf['role'] == 'en':
                 raw.append(1 if rng.random() < 0.8 else 0)
+            elif lf['role'] == 'addr':
+                # distinct address wires point at distinct cells (where addrwidth allows): a write through
+                # the wrong address wire lands in a visibly wrong cell
+                raw.append(aperm[ka % len(aperm)])
+                ka += 1
             else:
                 raw.append(rng.randrange(1 << lf['width']))
         steps.append((rho, raw))
@@ -1117,6 +1169,15 @@ def check_job(ctx, job, results):
     for l in case['targets']:
         ctx.count('target_kinds', l[0])
     ctx.count('defaults', 'declared' if any(b['defaults'] for b in case['blocks']) else 'none')
+    for b in case['blocks']:
+        per = {}
+        for t in walk(b['prog']):
+            if t[0] == 'mem':
+                per.setdefault(t[1], []).append(t[2])
+        for m, al in per.items():
+            if len(al) >= 2:
+                pat = ''.join('XYZUVW'[min(i, 5)] for i in canon_pattern(al))
+                ctx.count('mem_addr_wire_patterns(>=2 writes)', pat if len(pat) <= 4 else 'len%d:%d-wires' % (len(pat), len(set(al))))
     if job['ok']:
         ctx.count('valuations_per_program', len(job['rows']))
     key = (job['src'], repr(job['csteps']))
@@ -1125,6 +1186,12 @@ def check_job(ctx, job, results):
         sample = {'source': job['src'], 'coq': job['exprs'][0][:300], 'cycles': len(job['rows']),
                   'first_rows': [{wname(l): v for l, v in r.items()} for r in job['rows'][:2]]}
     ctx.case(key, nontrivial=nontrivial, sample=sample)
+
+
+def canon_pattern(pat):
+    """rename wires in order of first use: (2,0,0) -> [0,1,1]"""
+    m = {}
+    return [m.setdefault(a, len(m)) for a in pat]
 
 
 def gen_cases(ctx):
@@ -1166,6 +1233,23 @@ def gen_cases(ctx):
     for i in range(nrand):
         c = random_case(ctx.sub_rng('random', i), ctx.tier)
         yield c
+    # (2b) memory write chains: 2..4 (thorough 5) conditional writes to one MemBlock, ALL patterns of
+    # address wires over a pool of 3 shared address Inputs (X,Y / X,Y,Y / X,Y,X / X,X,Y,Y ...), 4 shapes
+    nmem = 4 if quick else 5
+    for n in range(2, nmem + 1):
+        for pat in itertools.product(range(3), repeat=n):
+            if list(pat) != canon_pattern(pat):
+                continue      # wire names are interchangeable: keep one representative per renaming
+            for shape in ('flat', 'flat-oth', 'nested', 'split'):
+                yield memchain_case(pat, shape)
+    mrng = ctx.sub_rng('memchain')
+    for i in range(60 if quick else 600):   # shared data wires too, 2-3 address wires, up to 5 writes
+        n = mrng.randint(3, 5)
+        k = mrng.randint(2, 3)
+        pat = [mrng.randrange(k) for _ in range(n)]
+        dpat = [mrng.randrange(n) for _ in range(n)]
+        yield memchain_case(pat, mrng.choice(['flat', 'flat-oth', 'nested', 'split']), dpat,
+                            W=mrng.choice([2, 3, 4]), A=mrng.choice([2, 3]))
     # (3) multi-block designs
     for i in range(40 if quick else 400):
         c = multiblock_case(ctx.sub_rng('multi', i))
